@@ -241,6 +241,111 @@ func init() {
 		return &Val{T: types.Typ[types.Bool], S: r}
 	}
 
+	models["errors.As"] = func(u *Unit, st *State, x *ast.CallExpr, _ *Val, fn *types.Func) *Val {
+		u.trusted["model: errors.As(e,&t) is a function of (e, static type of t); on success t is a non-nil value determined by e"] = true
+		e := u.eval(st, x.Args[0])
+		tgt := u.atomicTarget(x.Args[1])
+		if tgt == nil {
+			u.eval(st, x.Args[1])
+			return u.freshVal(st, types.Typ[types.Bool], "as")
+		}
+		tt := u.typeOf(tgt)
+		tn := types.TypeString(tt, nil)
+		okf := u.d.fun("fn!errors.As!"+tn, []string{SInt}, SBool)
+		valf := u.d.fun("fn!errors.AsVal!"+tn, []string{SInt}, SInt)
+		ok := app(okf, e.S)
+		st.assumeFact(tImp(tEq(e.S, "0"), tNot(ok)))
+		st.assumeFact(tImp(ok, app(">", app(valf, e.S), "0")))
+		st.guard = append(st.guard, ok)
+		u.assign(st, tgt, &Val{T: tt, S: app(valf, e.S)})
+		st.guard = st.guard[:len(st.guard)-1]
+		return &Val{T: types.Typ[types.Bool], S: ok}
+	}
+
+	// ---- net/http.Header: map[string][]string with canonicalised keys (canon is an uninterpreted function)
+	canon := func(u *Unit, k string) string {
+		u.trusted["model: net/http.Header methods canonicalise keys with an uninterpreted, idempotent function canon"] = true
+		uf := u.d.fun("fn!net/http.CanonicalHeaderKey", []string{SStr}, SStr)
+		return app(uf, k)
+	}
+	hdrMap := func(u *Unit, recv *Val) types.Type { return types.Unalias(recv.T).Underlying() }
+	models["(net/http.Header).Set"] = func(u *Unit, st *State, x *ast.CallExpr, recv *Val, fn *types.Func) *Val {
+		k, v := u.eval(st, x.Args[0]), u.eval(st, x.Args[1])
+		mt := hdrMap(u, recv)
+		st.assume(app("distinct", recv.S, "0"))
+		sl := u.zeroVal(st, mt.(*types.Map).Elem())
+		sl.Arr = app("store", sl.Arr, "0", v.S)
+		sl.Len, sl.Nil = "1", "false"
+		u.mapStore(st, mt, recv.S, canon(u, k.S), sl)
+		return &Val{}
+	}
+	models["(net/http.Header).Add"] = func(u *Unit, st *State, x *ast.CallExpr, recv *Val, fn *types.Func) *Val {
+		k, v := u.eval(st, x.Args[0]), u.eval(st, x.Args[1])
+		mt := hdrMap(u, recv)
+		st.assume(app("distinct", recv.S, "0"))
+		cur, _ := u.mapLoad(st, mt, recv.S, canon(u, k.S))
+		nv := &Val{T: cur.T, Arr: app("store", cur.Arr, cur.Len, v.S), Len: app("+", cur.Len, "1"), Nil: "false"}
+		u.mapStore(st, mt, recv.S, canon(u, k.S), nv)
+		return &Val{}
+	}
+	models["(net/http.Header).Del"] = func(u *Unit, st *State, x *ast.CallExpr, recv *Val, fn *types.Func) *Val {
+		k := u.eval(st, x.Args[0])
+		mt := hdrMap(u, recv)
+		st.guard = append(st.guard, app("distinct", recv.S, "0"))
+		u.mapDelete(st, mt, recv.S, canon(u, k.S))
+		st.guard = st.guard[:len(st.guard)-1]
+		return &Val{}
+	}
+	models["(net/http.Header).Get"] = func(u *Unit, st *State, x *ast.CallExpr, recv *Val, fn *types.Func) *Val {
+		k := u.eval(st, x.Args[0])
+		mt := hdrMap(u, recv)
+		cur, ok := u.mapLoad(st, mt, recv.S, canon(u, k.S))
+		has := tAnd(app("distinct", recv.S, "0"), ok, app(">", cur.Len, "0"))
+		return &Val{T: types.Typ[types.String], S: tIte(has, app("select", cur.Arr, "0"), `""`)}
+	}
+	models["(net/http.Header).Values"] = func(u *Unit, st *State, x *ast.CallExpr, recv *Val, fn *types.Func) *Val {
+		k := u.eval(st, x.Args[0])
+		mt := hdrMap(u, recv)
+		cur, _ := u.mapLoad(st, mt, recv.S, canon(u, k.S))
+		return cur
+	}
+
+	// ---- http.NewRequestWithContext: a fresh request with a fresh empty header map, or an error
+	newReq := func(u *Unit, st *State, x *ast.CallExpr, _ *Val, fn *types.Func) *Val {
+		u.trusted["model: http.NewRequest[WithContext] returns (fresh *Request with Method, Body set and an empty Header, nil) or (nil, err)"] = true
+		var args []*Val
+		for _, a := range x.Args {
+			args = append(args, u.eval(st, a))
+		}
+		tp := u.typeOf(x).(*types.Tuple)
+		rt := tp.At(0).Type()
+		errV := u.freshVal(st, tp.At(1).Type(), "newreq.err")
+		r := u.alloc(st)
+		hm := fieldType(rt, "Header")
+		if hm != nil {
+			mref := u.mapNew(st, types.Unalias(hm).Underlying())
+			u.storeField(st, r, rt, "Header", &Val{T: hm, S: mref})
+		}
+		off := 0
+		if len(args) == 4 {
+			off = 1
+			u.storeField(st, r, rt, "ctx", args[0])
+		}
+		u.storeField(st, r, rt, "Method", args[off])
+		if bt := fieldType(rt, "Body"); bt != nil {
+			u.storeField(st, r, rt, "Body", &Val{T: bt, S: args[off+2].S})
+		}
+		// the URL string is recorded in a ghost field for call-site obligations
+		if _, ok := u.eng.cs.GhostFields["reqURL"]; ok {
+			h := u.heapGet(st, "G!reqURL", SStr)
+			u.heapSet(st, "G!reqURL", SStr, app("store", h, r, args[off+1].S))
+		}
+		res := tIte(tEq(errV.S, "0"), r, "0")
+		return &Val{T: tp, Tuple: []*Val{{T: rt, S: res}, errV}}
+	}
+	models["net/http.NewRequestWithContext"] = newReq
+	models["net/http.NewRequest"] = newReq
+
 	// ---- context
 	models["(context.Context).Err"] = func(u *Unit, st *State, x *ast.CallExpr, recv *Val, fn *types.Func) *Val {
 		return u.freshVal(st, u.typeOf(x), "ctxerr")
